@@ -50,7 +50,7 @@ func interp{suf}(t *testing.T, rt *scnlib.RecT, steps []scnlib.Step) {{
 		case "call":
 			call{suf}(rt, st)
 		case "skip":
-			scnlib.DoSkip(rt, st.Kind)
+			scnlib.DoSkipStep(rt, st)
 		case "chdir":
 			scnlib.DoChdir()
 		case "sub":
